@@ -444,7 +444,20 @@ func VerifC09CLINonsense() {
 	in, out := vf.TempPath("nonsense-in"), vf.TempPath("nonsense-out")
 	verifReset(in, out)
 	defer verifReset(in, out)
-	os.WriteFile(in, []byte(c.input), 0o644)
+	// the meaningless element is the first thing in the piece, or follows a valid chord /
+	// instance (a failing command prints no partial result either)
+	input := c.input
+	if vf.NondetIntRange("after-a-valid-one", 0, 1) == 1 && input != "" {
+		switch {
+		case c.cmd == 0 || c.cmd == 4:
+			input = "C[2] " + input
+		case c.cmd == 1:
+			input = "1[2] " + input
+		case strings.HasPrefix(input, "- "):
+			input = "- values: [\"2\"]\n" + input
+		}
+	}
+	os.WriteFile(in, []byte(input), 0o644)
 	cmd := []*cobra.Command{textCmdConvSyllable, textCmdConvDegree, writeCmd, writeCmdEvent, textCmdParse}[c.cmd]
 	toFile := vf.NondetIntRange("toFile", 0, 1) == 1
 	flags := append([]string{}, c.flags...)
